@@ -12,9 +12,10 @@ FAMILIES = [("Sat3", "any"), ("Sat3", "any"), ("Rat", "acyclic"), ("Bool", "any"
 
 
 def generate(rng, tier, shard, nshards):
+    event = gops.variant_event(rng)
     for G in fam.tlc_family(shard, nshards):      # (C) the exhaustive family enumerated by TLC
         for how in ("agenda", "naive"):
-            yield gops.event("treesum", {"sr": "Sat3", "G": G, "how": how}, site=how, feat="tlc-family")
+            yield event("treesum", {"sr": "Sat3", "G": G, "how": how}, site=how, feat="tlc-family")
     n = 60 if tier == "quick" else 600
     for gi in range(n):
         srn, shape = FAMILIES[gi % len(FAMILIES)]
@@ -40,11 +41,11 @@ def generate(rng, tier, shard, nshards):
         elif gi % 3 == 2 and len(G["rules"]) >= 2:
             base["late"] = rng.randint(1, len(G["rules"]) - 1)      # rules added after a first evaluation
             feat = feat + "+rules-added-after-evaluation"
-        yield gops.event("treesum", dict(base, how="agenda"), site="agenda", feat=feat)
-        yield gops.event("treesum", dict(base, how="naive"), site="naive_bottom_up", feat=feat)
-        yield gops.event("treesum", dict(base, how="treesum", twice=(gi % 2 == 0)), site="treesum", feat=feat)
+        yield event("treesum", dict(base, how="agenda"), site="agenda", feat=feat)
+        yield event("treesum", dict(base, how="naive"), site="naive_bottom_up", feat=feat)
+        yield event("treesum", dict(base, how="treesum", twice=(gi % 2 == 0)), site="treesum", feat=feat)
         if srn == "Rat":
-            yield gops.event("explen", {k: v for k, v in base.items() if k not in ("pre", "late", "kw")}, site="expected_length", feat=feat)
+            yield event("explen", {k: v for k, v in base.items() if k not in ("pre", "late", "kw")}, site="expected_length", feat=feat)
     if shard == 1:
         # proper right-linear grammars whose inner blocks converge slowly (loops of weight close to one): every total
         # is one; the blocks above a slowly converging block must still be evaluated
@@ -55,14 +56,14 @@ def generate(rng, tier, shard, nshards):
             G = {"S": "#0", "V": ["a", "b"],
                  "rules": [{"w": [1, 2], "h": "#0", "b": ["a", "#1"]}, {"w": [1, 2], "h": "#0", "b": []},
                            {"w": loop, "h": "#1", "b": ["b", "#1"]}, {"w": rest, "h": "#1", "b": []}]}
-            yield gops.event("treesumrl", {"G": G}, site="agenda[slow convergence]", feat="slow-convergence", timeout=300)
+            yield event("treesumrl", {"G": G}, site="agenda[slow convergence]", feat="slow-convergence", timeout=300)
     if shard == 0:
         # many contributions that are individually below the convergence tolerance (large vocabularies):
         # the total is far above it and must be reported
         for nrules, w, tol in ((200, [1, 262144], 1e-4), (200, [1, 4096], 1e-3)):
             G = {"S": "#0", "V": ["a", "b"],
                  "rules": [{"w": [1, 1], "h": "#0", "b": ["#1", "a"]}] + [{"w": w, "h": "#1", "b": ["b"]}] * nrules}
-            yield gops.event("treesum", {"sr": "Rat", "G": G, "how": "agenda", "tol": tol}, site="agenda(tol)",
+            yield event("treesum", {"sr": "Rat", "G": G, "how": "agenda", "tol": tol}, site="agenda(tol)",
                              feat="many-subtolerance-contributions", timeout=120)
 
 
